@@ -270,8 +270,37 @@ def retention_filter(ctx):
             svc._compute_manifold_section = lambda **kw: base.copy()
             res = svc._run_compute(step=1.0 / len(scripts), integration_fraction=0.1, NN=1, displacement=1e-6, dt=1e-2, method="adaptive",
                                    order=8, energy_tol=tol, safe_distance=2.0, show_progress=False)
+            # the same question through the CACHING entry point, as a history on one service object: every argument is part of what is
+            # asked for -- a call that differs only in energy_tol (or only in safe_distance) must be answered for ITS value
+            hist = []
+            for etol, sd in ((1e-1, 2.0), (1e-6, 2.0), (1e-1, 2.0), (1e-6, 1e-9)):
+                it = iter(scripts)
+                try:
+                    r = svc.compute_manifold(step=1.0 / len(scripts), integration_fraction=0.1, NN=1, displacement=1e-6, dt=1e-2, method="adaptive",
+                                             order=8, energy_tol=etol, safe_distance=sd, show_progress=False)
+                except StopIteration:
+                    r = None
+                hist.append((etol, sd, None if r is None else [any(np.array_equal(st[-1], end) for st in r[2]) for name, end, keep in scripts]))
         finally:
             mf._propagate_dynsys = old
+        for etol, sd, kept_h in hist:
+            ctx.case(("retention-history", stable, etol, sd), nontrivial=True, kind="retention-history")
+            if kept_h is None:
+                continue
+            for (name, end, keep), k in zip(scripts, kept_h):
+                C1 = -2 * crtbp_energy(end, mu)
+                rel = abs((C1 - C0) / abs(C0))
+                inside = name == "inside-primary" and sd > 1e-6
+                want = (rel <= etol) and not inside
+                if name == "inside-primary" and sd <= 1e-6:
+                    continue      # with a tiny safety sphere the outcome depends on the scripted state only through the energy test
+                if k != want:
+                    ctx.violation("retention-history:%s" % name,
+                                  "compute_manifold(energy_tol=%g, safe_distance=%g) after calls with other tolerances on the same object: a branch whose Jacobi "
+                                  "constant changes by %.3g (relative) is %s" % (etol, sd, rel, "retained" if k else "discarded"),
+                                  {"stable": stable, "history": [{"energy_tol": a, "safe_distance": b} for a, b, _ in hist], "case": name,
+                                   "relative_jacobi_change": rel, "energy_tol": etol, "retained": bool(k)})
+                    return
         states_list = res[2]
         kept = []
         for name, end, keep in scripts:
@@ -366,10 +395,14 @@ def numerics(ctx):
         i_s, i_u = int(np.argmin(np.abs(ev))), int(np.argmax(np.abs(ev)))
         vs, vu = V[:, i_s].real, V[:, i_u].real
         disp = 1e-6
-        for stable in (True, False):
-            for direction in ("positive", "negative"):
+        sides = {}
+        combos = [(st_, dr_, "adaptive", 8) for st_ in (True, False) for dr_ in ("positive", "negative")]
+        # the non-default fixed-step method as well (stable branch: integrated backward through the direction wrapper)
+        combos += [(True, "negative", "fixed", 8)] + ([(False, "positive", "fixed", 4), (True, "positive", "fixed", 6)] if ctx.thorough() else [])
+        for stable, direction, method, order in combos:
+            if True:
                 man = orb.manifold(stable=stable, direction=direction)
-                res = man.compute(step=step, integration_fraction=0.05, displacement=disp, method="adaptive", order=8)
+                res = man.compute(step=step, integration_fraction=0.05, displacement=disp, method=method, order=order)
                 trajs = man.trajectories
                 if trajs is None or len(trajs) == 0:
                     ctx.notes.append("no trajectory retained for %s %s %s" % (kind, stable, direction))
@@ -386,8 +419,10 @@ def numerics(ctx):
                     Phi = ref.y[:36, j].reshape(6, 6)
                     true_dir = Phi @ (vs if stable else vu)
                     delta = seed - xo
-                    key = (kind, stable, direction, round(float(fracs[j]), 3))
-                    ctx.case(key, nontrivial=True, kind="%s:%s:%s" % (kind, "S" if stable else "U", direction[:3]),
+                    key = (kind, stable, direction, round(float(fracs[j]), 3), method, order)
+                    if method == "adaptive":
+                        sides[(stable, j, direction)] = delta
+                    ctx.case(key, nontrivial=True, kind="%s:%s:%s%s" % (kind, "S" if stable else "U", direction[:3], "" if method == "adaptive" else ":fixed"),
                              sample={"orbit": kind, "stable": stable, "direction": direction, "fraction": float(fracs[j]),
                                      "displacement_norm": float(np.linalg.norm(delta[:3]))} if matched == 0 else None)
                     matched += 1
@@ -417,7 +452,7 @@ def numerics(ctx):
                     chk = solve_ivp(lambda t, y: rtbp._crtbp_accel(y, mu), (0, times[-1]), seed, method="DOP853", rtol=1e-11, atol=1e-11)
                     if not np.linalg.norm(chk.y[:, -1] - states[-1]) <= 1e-6:
                         ctx.violation("branch-not-flow", "branch trajectory is not the flow of its seed at the signed times (end-state error %g)" % np.linalg.norm(chk.y[:, -1] - states[-1]),
-                                      {"orbit": kind, "stable": stable, "direction": direction, "seed": seed.tolist(), "t_end": float(times[-1])})
+                                      {"orbit": kind, "stable": stable, "direction": direction, "method": method, "order": order, "seed": seed.tolist(), "t_end": float(times[-1])})
                         return
                     # (d) Jacobi constant of the seed kept within the energy tolerance
                     C = np.array([-2 * __import__("hiten").algorithms.common.energy.crtbp_energy(s, mu) for s in states[:: max(1, len(states) // 50)]])
@@ -428,4 +463,39 @@ def numerics(ctx):
                         return
                     # (e) side: positive/negative directions are opposite
                 ctx.extra.setdefault("retained", {})["%s:%s:%s" % (kind, stable, direction)] = matched
-        # positive and negative seeds at the same fraction are on opposite sides
+                if (stable, direction, method) == (False, "positive", "adaptive"):
+                    # history on the SAME manifold object: a second compute with another displacement is answered for that displacement
+                    disp2 = 3e-6
+                    man.compute(step=step, integration_fraction=0.05, displacement=disp2, method=method, order=order)
+                    for tr in (man.trajectories or []):
+                        seed = np.asarray(tr.states, dtype=float)[0]
+                        dmin = min(np.linalg.norm(seed[:3] - ref.y[36:39, j]) for j in range(len(fracs)))
+                        ctx.case((kind, "second-compute", round(float(dmin), 12)), nontrivial=True, kind="%s:second-compute" % kind)
+                        if not abs(dmin - disp2) <= 2e-3 * disp2:
+                            ctx.violation("seed-distance:second-compute",
+                                          "second compute() on the same Manifold with displacement %g: seed is displaced by %g" % (disp2, dmin),
+                                          {"orbit": kind, "stable": stable, "direction": direction, "history": ["compute(displacement=1e-6)", "compute(displacement=3e-6)"],
+                                           "seed": seed.tolist(), "distance_to_orbit_sample": float(dmin)})
+                            return
+        # (e) side: at every phase fraction the "positive" and the "negative" seed lie on opposite sides of the orbit point, and the positive
+        # side is the same side (relative to the transported eigenvector) at every fraction
+        for (stable, j, direction), dpos in sorted(sides.items(), key=lambda kv: (kv[0][0], kv[0][1], kv[0][2])):
+            if direction != "positive" or (stable, j, "negative") not in sides:
+                continue
+            dneg = sides[(stable, j, "negative")]
+            c = float(dpos @ dneg) / (np.linalg.norm(dpos) * np.linalg.norm(dneg))
+            ctx.case((kind, "side", stable, j), nontrivial=True, kind="%s:side" % kind)
+            if not c <= -0.999:
+                ctx.violation("seed-side", "the positive and the negative seed at phase fraction %.3f are not on opposite sides of the orbit (cosine %.4f)" % (fracs[j], c),
+                              {"orbit": kind, "stable": stable, "fraction": float(fracs[j]), "positive_offset": dpos.tolist(), "negative_offset": dneg.tolist(), "cosine": c})
+                return
+        for stable in (True, False):
+            sg = []
+            for j in range(len(fracs)):
+                if (stable, j, "positive") in sides:
+                    Phi = ref.y[:36, j].reshape(6, 6)
+                    sg.append((j, float(np.sign(sides[(stable, j, "positive")] @ (Phi @ (vs if stable else vu))))))
+            if len({v for _, v in sg}) > 1:
+                ctx.violation("seed-side", "the positive side flips along the orbit relative to the transported eigenvector: %r" % (sg,),
+                              {"orbit": kind, "stable": stable, "signs_by_fraction_index": sg})
+                return
